@@ -288,6 +288,26 @@ func c17One(c *Ctx, rng *rand.Rand, m *Model, stream string) {
 			fail(fmt.Sprintf("the rewrites of the model contain %d computed-userset operands but the graph has %d rewrite/computed lines leaving relation nodes (one line per occurrence is what the rewrite dictates)", want, got), map[string]any{"dot": dot})
 		}
 	}
+	// a tuple-to-userset line starts at `P#x` only for a parent type P that defines x (the theorem ttu_has_line and
+	// its converse built_line_typed say so of the port): a source the model does not define is a phantom node
+	{
+		defined := map[string]bool{}
+		for _, t := range m.Types {
+			for _, r := range t.Rels {
+				defined[t.Name+"#"+r.Name] = true
+			}
+		}
+		label := map[int64]string{}
+		for _, n := range nodes {
+			label[n.ID()] = n.Label()
+		}
+		for _, l := range lines {
+			if l.et == int(graph.TTUEdge) && !defined[label[l.src]] {
+				fail("a tuple-to-userset line starts at "+label[l.src]+", a relation the model does not define (only parent types that define the computed relation contribute a line)", map[string]any{"dot": dot})
+				break
+			}
+		}
+	}
 	// lookup: exactly the type, relation and wildcard nodes
 	for _, n := range nodes {
 		got, err := g.GetNodeByLabel(n.Label())
